@@ -12,7 +12,7 @@ from ..core import Machinery
 
 LEVEL = "exploration"
 MODULES = ["KDF", "HashAlgs", "AesAead", "AES", "Salsa20", "Blowfish", "SHA256", "SHA1", "SHA512", "MD5", "MD2", "CipherWords"]
-SLOW_MODULES = ["KDFBcryptKat", "KDFBcryptKat2"]          # minutes each: thorough tier (and ./check setup)
+SLOW_MODULES = ["KDFBcryptKat", "KDFBcryptKat2", "KDFBcryptKat3"]          # minutes each: thorough tier (and ./check setup)
 LABEL = {"pbkdf1": "PBKDF1", "pbkdf2": "PBKDF2", "hkdf": "HKDF", "sp108": "SP800_108_Counter", "scrypt": "scrypt", "bcrypt": "bcrypt",
          "bcrypt_check": "bcrypt_check", "s2v": "S2V"}
 F10_KEY = "S2V: empty vector returns CMAC(K, zero) instead of CMAC(K, <one>)"
@@ -143,7 +143,7 @@ def describe(t):
                  num_keys=t["num_keys"], note=t["note"], returned=[bytes(k).hex() for k in t["keys"]][:4])
     elif a == "bcrypt":
         d.update(password=bytes(t["pw"]).hex(), cost=t["bcost"], salt=bytes(t["salt"]).hex(), returned=bytes(t["out"]).decode("latin-1"),
-                 eksblowfish_recomputed_by_tlc=t["eks"], note=t["note"])
+                 eksblowfish_recomputed_by_tlc=bool(t["eks"] or t.get("eks_links")), note=t["note"])
     elif a == "bcrypt_check":
         d.update(password=bytes(t["pw"]).hex(), offered_hash=bytes(t["offered"]).decode("latin-1"), offer=t["what"], hash_type=t["conv"],
                  bcrypt_of_password_under_offered_cost_and_salt=bytes(t["ref"]["out"]).decode("latin-1") if t["ref"]["has"] else None)
@@ -158,7 +158,7 @@ def nontriv_key(t):
 
 def run(ctx):
     quick = ctx.tier == "quick"
-    pool = ThreadPoolExecutor(max_workers=3)
+    pool = ThreadPoolExecutor(max_workers=1)
     # 0. the oracle is validated before it is believed (in the background; joined before any verdict is used)
     st = pool.submit(selftest, MODULES + ([] if quick else SLOW_MODULES))
     # 1. recorder: real calls over generated parameters (toy primitives for structure, real primitives with small counts)
@@ -171,6 +171,7 @@ def run(ctx):
     links = []
     for t in valued:
         t["eks"] = False                        # in its own record only the structure is judged; the value through its chain
+        t["eks_links"] = True
         links += eks_chain(t, 1000000 + 1000 * len(links))
     verdicts = ctx.validate("KdfTrace", balance(records + links), family="kdf-values", timeout=3000)
     value_verdict = {}
@@ -213,7 +214,7 @@ def run(ctx):
                 ctx.notes.append(msg)
             continue
         if clause != "ok":
-            ctx.violation("%s: %s" % (name, clause), describe(t), replay=t)
+            ctx.violation("%s: %s" % (name, clause[len(name) + 1:] if clause.startswith(name + " ") else clause), describe(t), replay=t)
     okrec = lambda t: verdicts[t["tid"]][1] == "ok"  # noqa: E731
     shown = set()
     for t in records:
@@ -334,6 +335,7 @@ def run(ctx):
                "the EksBlowfish value of those reference calls is not recomputed by TLC, only that of the bcrypt records flagged eks")
     ctx.assume("the toy hash / PRF is defined twice (spec/data/KDF!ToyHash, harness/drivers/c12_kdf.py:toy_digest); the two definitions are pinned on each "
                "other by ASSUMEd values and by every toy record")
-    ctx.assume("refusal = any exception; ValueError/TypeError are accepted silently, other classes are listed as notes (the property names no class)")
+    ctx.assume("refusal = any exception except MemoryError/RecursionError (resource exhaustion counts as not refused); ValueError/TypeError are accepted "
+               "silently, other classes are listed as notes (the property names no class)")
     ctx.assume("a requested total length of 0, num_keys = 0 and a zero byte in the SP 800-108 label are treated as points where the specifications are "
                "silent (value or refusal accepted); parameters that cannot be run (scrypt N >= 2^17, in-domain p*r near 2^30) are not explored")
